@@ -228,6 +228,14 @@ pub const GROUPS: &[(&str, &[(&str, &[Sel])])] = &[
         "ConnSend",
         &[("renet/src/remote_connection.rs", &[Sel::Method("RenetClient", "get_packets_to_send")])],
     ),
+    // the connection object: the clock and an incoming packet
+    (
+        "ConnRecv",
+        &[(
+            "renet/src/remote_connection.rs",
+            &[Sel::Method("RenetClient", "update"), Sel::Method("RenetClient", "process_packet")],
+        )],
+    ),
     (
         "TokenTable",
         &[(
@@ -344,6 +352,19 @@ pub const WHILE_FUEL: &[(&str, &str, &[&str])] = &[
         &["received_messages.len() + 1"],
     ),
 ];
+
+/// `for v in <hash map>.values_mut()` loops that are accepted although the iteration order of a `HashMap` is
+/// unspecified: (file, fn, receiver text, justification).  The translator ADDITIONALLY checks what the justification
+/// claims: the body assigns nothing but (through) the loop variable and has no `break` / `continue` / `return` /
+/// `?`, so the rounds commute and the final map does not depend on their order (the generated loop visits the
+/// values in key order; which of several panicking rounds fires first is the only observable difference, and panics
+/// are compared up to their site).
+pub const HASHMAP_VALUES_MUT_OK: &[(&str, &str, &str, &str)] = &[(
+    "renet/src/remote_connection.rs",
+    "RenetClient::update",
+    "self.receive_unreliable_channels",
+    "each iteration touches only its own value",
+)];
 
 /// External types that are not translated but mapped to an opaque RustSem type
 /// (last path segments, Lean name).
